@@ -78,6 +78,10 @@ CLAIMED = {
          'The round-trip theorem is about the codec written for this check (all values, all nesting depths, all scalar-value strings, all m*10^e numbers). The implementation side delegates to CPython json and is compared on generated values (strings over quotes, backslash, control, astral and boundary code points; integers to 10^20; doubles needing 17 digits): PARTIAL - observed, not proved. XML serialization is observed only. Seven defects were fixed in /repo.',
          'Trusted: Coq kernel; harness conversion between Python / XDM / Coq values; CPython json and xml.etree (canonicalize). No axioms.',
          'DESIGN.md §6 C17'),
+ 'C18': ('Coq proofs: the atomic hierarchy used by the code (issubclass matrix, T-data regenerated from the registered classes) is the XSD derivation hierarchy for all 46x46 pairs; occurrence indicators = cardinality sets; the subtype relation is reflexive, transitive and sound for matching (all values, all sequence types over atomic types and item()); treat as = instance of; the occurrence logic of is_sequence_type_restriction is sound, and refuted as incomplete (T* vs S?, S+: pinned by the suite). Correspondence through instance of / treat as / match_sequence_type / is_sequence_type_restriction',
+         'Atomic item types and item(): for all inputs. PARTIAL: node kind tests, map / array / function tests and schema types are outside the Coq model (hand-written expectation table); function results vs declared return types are checked for ~170 calls with the implementation matcher. Seven defects were fixed in /repo; two known findings.',
+         'Trusted: Coq kernel; Gen/C18Types.v T-data; transcription of the XSD derivation table; harness table of constructor literals. No axioms.',
+         'DESIGN.md §6 C18'),
 }
 
 NOT_YET = {}
